@@ -40,6 +40,14 @@ LEAN_EXTRA = [
 ]
 GENERATED = ["stat_types", "sampler_skeleton"]
 SKELETON_MODULES = (".C13S.", ".C14S.", ".C15S.", ".C16K.")
+# --- B16: output-storage helpers of samplers.py (_init_traces, _init_stats, memmap helpers, path conversions,
+# _get_per_chain_rngs, _check_and_process_init_state, HMC wrapper) regenerated on every run as statement trees
+# (plug-in sampler_storage_skeleton -> Generated/SamplerStorageSkeleton.lean) and proved equal to the trees the
+# model's initSys / nTraceIter were written against (Props/C13K.lean; fill-value facts in Props/C15K.lean)
+LEAN_MODULES += ["MiciVerif.Props.C13K"]
+GENERATED += ["sampler_storage_skeleton"]
+STORAGE_MODULES = (".C13K.", ".C15K.")
+# --- end B16
 
 
 def skeleton_escalation(ctx) -> int:
@@ -584,6 +592,11 @@ def real_run(cfg, intr_spec=None, delays=None, log_calls=False, timeout=120.0):
             }
             if tmpdir is not None:
                 res["files"] = readback(cfg, ref, out, tmpdir.name, n_chain)
+    # --- B16: outputs of an unexpected layout (wrong number of arrays / axes) are the implementation's error,
+    # not a crash of the harness
+    except (IndexError, KeyError, TypeError, ValueError, AttributeError) as e:
+        res["error"] = f"returned outputs are malformed: {type(e).__name__}: {e}"
+    # --- end B16
     finally:
         if tmpdir is not None:
             del out
@@ -937,6 +950,221 @@ def replay_corpus(ctx):
             ctx.violation(obj.get("signature", "corpus:" + f.name), f"corpus case {f.name} fails: {obj.get('comment', '')}",
                           {k: v for k, v in obj.items() if k not in ("comment", "signature")})
 
+# --- B16: direct oracle on the storage helpers ------------------------------------------------------------
+_ST_DTYPES_QUICK = ["float64", "float32", "complex64", "int64", "bool"]
+_ST_DTYPES_MORE = ["float16", "longdouble", "complex128", "clongdouble", "int8", "int32", "uint8", "uint64"]
+
+
+def storage_broken(ctx):
+    """names of the broken obligations about the generated storage skeleton (Props/C13K, C15K)"""
+    return [o["theorem"] for o in ctx.obligations if not o["ok"] and any(m in o["theorem"] for m in STORAGE_MODULES)]
+
+
+def storage_cases(ctx, *, fill_only=False):
+    """Cases for `storage_case`.  Escalation: when an obligation of Props/C13K / C15K is broken (the storage
+    helpers are not the code the model was written against) every dtype x shape x chain count x storage kind
+    combination is tried instead of a sample."""
+    esc = bool(storage_broken(ctx))
+    if esc:
+        ctx.extra["storage_obligations_broken"] = storage_broken(ctx)
+        ctx.count("escalated_search(storage obligation broken)")
+    full = esc or not ctx.quick
+    dts = _ST_DTYPES_QUICK + (_ST_DTYPES_MORE if full else [])
+    shapes = [[], [3], [2, 2]] if full else [[], [3]]
+    out = []
+    for mm in (False, True):
+        for i, dt in enumerate(dts):
+            for j, sh in enumerate(shapes):
+                ncs = (1, 2, 3) if full else ((2,) if (i + j) % 2 else (3,))
+                for nc in ncs:
+                    for ni in ((0, 1, 4) if full else (4,)):
+                        out.append({"storage": "traces", "dtype": dt, "shape": sh, "n_chain": nc, "n_iter": ni, "memmap": mm})
+        if not fill_only:
+            for nc in (1, 3):
+                for ni in ((0, 5) if full else (5,)):
+                    out.append({"storage": "stats", "n_chain": nc, "n_iter": ni, "memmap": mm})
+    if not fill_only:
+        for bg in ("PCG64", "SFC64", "MT19937", "Philox"):
+            for nc in ((1, 2, 3, 5) if full else (1, 3)):
+                out.append({"storage": "rngs", "bitgen": bg, "n_chain": nc, "seed": 20 + nc})
+        out.append({"storage": "init_state"})
+        out.append({"storage": "iterators", "n_chain": 3, "n_iter": 4})
+        out.append({"storage": "paths", "n_chain": 2, "n_iter": 3})
+    return out
+
+
+def _fill_ok(arr, dtype):
+    if arr.size == 0:
+        return True
+    if np.issubdtype(dtype, np.inexact):
+        return bool(np.all(np.isnan(arr)))
+    return bool(np.all(arr == 0))
+
+
+def storage_case(case):  # noqa: PLR0912, PLR0915
+    """Run one storage helper of the real code; list of complaints (empty = as the model assumes)."""
+    import mici.samplers as ms  # noqa: PLC0415
+    from mici.states import ChainState  # noqa: PLC0415
+
+    bad = []
+    kind = case["storage"]
+    with tempfile.TemporaryDirectory() as td:
+        if kind == "traces":
+            dt, sh, nc, ni, mm = np.dtype(case["dtype"]), tuple(case["shape"]), case["n_chain"], case["n_iter"], case["memmap"]
+            calls = []
+
+            def tf(state):
+                calls.append(state)
+                v = np.ones(sh, dtype=dt) if sh else dt.type(1)
+                return {"val": v, "pyfloat": 1.5, "pyint": 7}
+
+            states = [ChainState(pos=np.array([float(c)]), cid=c) for c in range(nc)]
+            tr = ms._init_traces([tf], states, ni, use_memmap=mm, memmap_path=td)  # noqa: SLF001
+            if len(calls) != 1 or calls[0] is not states[0]:
+                bad.append(f"trace function evaluated {len(calls)} time(s) / not on init_states[0]")
+            if sorted(tr) != ["pyfloat", "pyint", "val"]:
+                bad.append(f"trace keys {sorted(tr)}")
+            want = {"val": (dt, sh), "pyfloat": (np.dtype("float64"), ()), "pyint": (np.dtype(int), ())}
+            files = []
+            for k, (wdt, wsh) in want.items():
+                arrs = tr.get(k, [])
+                if len(arrs) != nc:
+                    bad.append(f"traces[{k}]: {len(arrs)} arrays for {nc} chains")
+                for c, a in enumerate(arrs):
+                    if a.shape != (ni, *wsh):
+                        bad.append(f"shape: traces[{k}][{c}].shape = {a.shape}, expected (n_iter,)+value.shape = {(ni, *wsh)}")
+                    if a.dtype != wdt:
+                        bad.append(f"dtype: traces[{k}][{c}].dtype = {a.dtype}, value dtype {wdt}")
+                    elif not _fill_ok(np.asarray(a), wdt):
+                        bad.append(f"fill: traces[{k}][{c}] ({a.dtype}, {'memmap' if mm else 'memory'}) is pre-filled with "
+                                   f"{np.asarray(a).ravel()[0]!r}, not with {'NaN' if np.issubdtype(wdt, np.inexact) else 0}")
+                    if mm:
+                        if not isinstance(a, np.memmap):
+                            bad.append(f"traces[{k}][{c}] is not memory-mapped")
+                        else:
+                            files.append(str(a.filename))
+                    elif isinstance(a, np.memmap):
+                        bad.append(f"traces[{k}][{c}] is memory-mapped without use_memmap")
+            if len(set(files)) != len(files):
+                bad.append(f"file names: {len(files)} arrays share {len(set(files))} files")
+            if any(Path(f).parent.resolve() != Path(td).resolve() for f in files):
+                bad.append("file names: file outside memmap_path")
+        elif kind == "stats":
+            nc, ni, mm = case["n_chain"], case["n_iter"], case["memmap"]
+
+            class _T:
+                def __init__(self, st):
+                    self.statistic_types = st
+
+            decl = {"n": (np.int64, -1), "acc": (np.float64, np.nan), "flag": (bool, False), "f32": (np.float32, np.nan),
+                    "u": (np.uint8, 3)}
+            st = ms._init_stats({"t a": _T(decl), "none": _T(None), "tb": _T({"n": (np.int64, -1)})}, nc, ni,  # noqa: SLF001
+                                use_memmap=mm, memmap_path=td)
+            if sorted(st) != ["t a", "tb"]:
+                bad.append(f"stats keys {sorted(st)}")
+            files = []
+            for tk, d in (("t a", decl), ("tb", {"n": (np.int64, -1)})):
+                if sorted(st.get(tk, {})) != sorted(d):
+                    bad.append(f"stats[{tk}] keys {sorted(st.get(tk, {}))}")
+                for k, (wdt, wval) in d.items():
+                    arrs = st.get(tk, {}).get(k, [])
+                    if len(arrs) != nc:
+                        bad.append(f"stats[{tk}][{k}]: {len(arrs)} arrays for {nc} chains")
+                    for c, a in enumerate(arrs):
+                        if a.shape != (ni,):
+                            bad.append(f"shape: stats[{tk}][{k}][{c}].shape = {a.shape}, expected {(ni,)}")
+                        if a.dtype != np.dtype(wdt):
+                            bad.append(f"dtype: stats[{tk}][{k}][{c}].dtype = {a.dtype}, declared {np.dtype(wdt)}")
+                        elif a.size and not (np.all(np.isnan(a)) if isinstance(wval, float) else np.all(np.asarray(a) == wval)):
+                            bad.append(f"fill: stats[{tk}][{k}][{c}] pre-filled with {np.asarray(a)[0]!r}, declared {wval!r}")
+                        if mm and isinstance(a, np.memmap):
+                            files.append(str(a.filename))
+                        elif mm:
+                            bad.append(f"stats[{tk}][{k}][{c}] is not memory-mapped")
+            if len(set(files)) != len(files):
+                bad.append(f"file names: {len(files)} arrays share {len(set(files))} files")
+        elif kind == "rngs":
+            def mk():
+                return np.random.Generator(getattr(np.random, case["bitgen"])(case["seed"]))
+
+            nc = case["n_chain"]
+            rngs = ms._get_per_chain_rngs(mk(), nc)  # noqa: SLF001
+            if len(rngs) != nc:
+                bad.append(f"{len(rngs)} generators for {nc} chains")
+            draws = [tuple(r.integers(0, 2**62, 4).tolist()) for r in rngs]
+            if len(set(draws)) != len(draws):
+                bad.append(f"per-chain generators share a stream: {len(set(draws))} distinct streams for {len(draws)} chains")
+            again = [tuple(r.integers(0, 2**62, 4).tolist()) for r in ms._get_per_chain_rngs(mk(), nc)]  # noqa: SLF001
+            if again != draws:
+                bad.append("per-chain generators are not a function of the base generator's state")
+            longer = [tuple(r.integers(0, 2**62, 4).tolist()) for r in ms._get_per_chain_rngs(mk(), nc + 1)]  # noqa: SLF001
+            if longer[:nc] != draws:
+                bad.append("stream of chain i depends on the number of chains")
+        elif kind == "init_state":
+            class _T:
+                state_variables = {"pos", "mom"}
+
+            ok = ms._check_and_process_init_state({"pos": np.zeros(2), "mom": np.zeros(2)}, {"t": _T()})  # noqa: SLF001
+            if not isinstance(ok, ChainState):
+                bad.append("dict initial state not converted to ChainState")
+            s0 = ChainState(pos=np.zeros(2), mom=None)
+            if ms._check_and_process_init_state(s0, {"t": _T()}) is not s0:  # noqa: SLF001
+                bad.append("ChainState initial state not returned as is")
+            for arg, exc in (({"pos": np.zeros(2)}, ValueError), (ChainState(pos=np.zeros(2)), ValueError)):
+                try:
+                    ms._check_and_process_init_state(arg, {"t": _T()})  # noqa: SLF001
+                    bad.append(f"validation: initial state without `mom` accepted ({type(arg).__name__})")
+                except exc:
+                    pass
+        elif kind == "iterators":
+            from mici.progressbars import DummyProgressBar  # noqa: PLC0415
+
+            its = ms._construct_chain_iterators(case["n_iter"], DummyProgressBar, case["n_chain"], 1)  # noqa: SLF001
+            if len(its) != case["n_chain"] or any(len(list(it.sequence)) != case["n_iter"] for it in its):
+                bad.append("chain iterators: wrong number / length")
+        elif kind == "paths":
+            nc, ni = case["n_chain"], case["n_iter"]
+            tr = ms._init_traces([lambda s: {"a": s.pos}], [ChainState(pos=np.zeros(2))] * nc, ni,  # noqa: SLF001
+                                 use_memmap=True, memmap_path=td)
+            tree = {"chain_traces": {"a": tr["a"][0]}, "lst": [tr["a"][1 % nc], 5], "tup": (tr["a"][0], None), "x": "s"}
+            paths = ms._memmaps_to_file_paths(tree)  # noqa: SLF001
+            if not (isinstance(paths["chain_traces"]["a"], Path) and isinstance(paths["lst"], list)
+                    and isinstance(paths["tup"], tuple) and paths["lst"][1] == 5 and paths["tup"][1] is None
+                    and paths["x"] == "s" and list(paths) == list(tree)):
+                bad.append("paths: _memmaps_to_file_paths changed the structure / did not convert a memmap leaf")
+            back = ms._file_paths_to_memmaps(paths)  # noqa: SLF001
+            b = back["chain_traces"]["a"]
+            if not isinstance(b, np.memmap) or Path(b.filename) != Path(tr["a"][0].filename) or b.shape != (ni, 2) \
+                    or not isinstance(back["tup"][0], np.memmap) or not isinstance(back["lst"][0], np.memmap):
+                bad.append("paths: round trip does not re-open the parent's files")
+            else:
+                if not np.all(np.isnan(b)):
+                    bad.append("paths: re-opened array lost its fill values")
+                b[1] = 42.0
+                b.flush()
+                if not np.all(np.asarray(np.load(tr["a"][0].filename, mmap_mode="r"))[1] == 42.0):
+                    bad.append("paths: a row written through the re-opened array is not in the parent's file")
+        else:
+            bad.append(f"unknown storage case {kind}")
+    return bad
+
+
+def storage_oracle(ctx, *, fill_only=False):
+    for case in storage_cases(ctx, fill_only=fill_only):
+        try:
+            bad = with_timeout(lambda case=case: storage_case(case), 60.0)
+        except _Timeout:
+            bad = ["timeout"]
+        except Exception as e:  # noqa: BLE001
+            bad = [f"raised {type(e).__name__}: {e}"]
+        ctx.case(case, nontrivial=case.get("n_iter", 1) > 0)
+        ctx.count(f"storage_{case['storage']}")
+        if fill_only:
+            bad = [b for b in bad if b.startswith(("fill", "raised", "timeout"))]
+        for b in bad:
+            ctx.violation(f"{ctx.prop} storage helpers ({case['storage']}): " + b.split(":")[0][:50], f"{b} for {case}", dict(case))
+# --- end B16
+
 
 def run(ctx: common.Ctx):
     classes()
@@ -956,6 +1184,12 @@ def run(ctx: common.Ctx):
         "undeclared statistic key `diverging` is written under that exception; see StatTypes table)",
     ]
     check_stat_table(ctx)
+    # --- B16: direct oracle on the helpers that create / hand over the output storage
+    ctx.rule += ("; storage helpers called directly: _init_traces / _init_stats over dtype x value shape x chains x "
+                 "length x {memory, memmap}, _get_per_chain_rngs over bit generators with / without `jumped`, path "
+                 "conversions, initial-state validation (all combinations when an obligation of Props/C13K is broken)")
+    storage_oracle(ctx)
+    # --- end B16
     cfgs = []
     # fixed corner cases first
     corner = [
@@ -1046,6 +1280,13 @@ def run(ctx: common.Ctx):
 
 def replay(ctx, obj):
     classes()
+    # --- B16
+    if "storage" in obj:
+        try:
+            return bool(storage_case(obj))
+        except Exception:  # noqa: BLE001
+            return True
+    # --- end B16
     if "cfg" in obj:
         res = real_run(obj["cfg"])
         return bool(oracle_complete(obj["cfg"], res))
@@ -1090,3 +1331,24 @@ TECHNIQUE = (
     "AST-extracted tables + cell-by-cell model/implementation comparison"
     " + AST-extracted control skeleton proved equal to the model's (decide +kernel) and, for the two loop bodies, semantically equal to the model functions"
 )
+# --- B16
+LEVEL_TEXT += (
+    " Storage tie (Props/C13K): the helpers that create and hand over the output storage (_init_traces, _init_stats, "
+    "_open_new_memmap, _generate_memmap_filenames, _get_valid_filename, _memmaps_to_file_paths, _file_paths_to_memmaps, "
+    "_zip_dict, _check_and_process_init_state, _construct_chain_iterators, _get_per_chain_rngs, the HamiltonianMonteCarlo "
+    "wrapper and the two output tuples) are re-extracted on every run with comprehensions / f-strings / slices translated "
+    "structurally and proved equal to the trees initSys / nTraceIter were written against; the allocation statements are "
+    "read as functions of (n_chain, n_iter, value shape, dtype kind): for all of those, with either storage kind, one "
+    "array per chain of shape (n_iter,)+value.shape with the value's dtype (statistics: length n_iter, declared dtype "
+    "and fill), memory-mapped = in-memory apart from the file, one file per chain index, per-chain generators = streams "
+    "0..n_chain-1 of the one base generator (jumped / spawned) as initSys numbers them."
+)
+LEVEL_NOTE += (
+    " Storage tie: the reading of an allocation statement (Skel.Storage) is a definition over symbolic NumPy calls "
+    "(np.full, list(), open_memmap, issubdtype, jumped, spawn are interpreted, not proved against NumPy) and is "
+    "validated by calling the helpers directly over dtype x shape x chain count x length x storage kind; file-name "
+    "distinctness is shown for the chain index only (sanitised keys may in principle collide: `a b` vs `a_b` do not, "
+    "but characters outside [alnum._- ] are dropped)."
+)
+TECHNIQUE += " + AST-extracted storage helpers proved equal to the model's and read as shape/dtype/fill/stream functions"
+# --- end B16
